@@ -1,3 +1,4 @@
+#define _GNU_SOURCE
 /* General conversion harness (C01, C02b, C04, C08, C16, C20 ...).
    Input line:  <format> <extensions> <language> <hex source> [D [<hex directory>]]
    (D = use mmd_string_convert_to_data: binary / packaged result of the recorded length)
@@ -49,7 +50,7 @@ int main(void) {
 			close(po[0]); close(pe[0]);
 			dup2(pe[1], 2);
 			alarm(20);
-			token_pool_init();
+			H_POOL_INIT();
 			char * out; size_t n;
 			if (nf >= 5 && f[4][0] == 'D') {
 				/* optional sixth field: hex of the directory assets are looked up in */
@@ -74,7 +75,15 @@ int main(void) {
 		int st; waitpid(pid, &st, 0);
 		int status = WIFEXITED(st) ? WEXITSTATUS(st) : -WTERMSIG(st);
 		printf("%d %d ", status, n1 > 0 ? 1 : 0);
-		h_puthex(stdout, e, n2 > 600 ? 600 : n2); printf(" ");
+		/* the end of stderr is where a sanitizer report is */
+		{
+			size_t from = n2 > 1500 ? n2 - 1500 : 0;
+			char * hit = n2 ? memmem(e, n2, "ERROR: AddressSanitizer", 23) : NULL;
+			if (!hit && n2) hit = memmem(e, n2, "runtime error", 13);
+			if (hit) { from = (size_t) (hit - e); if (from > 120) from -= 120; else from = 0; }
+			h_puthex(stdout, e + from, n2 - from > 1500 ? 1500 : n2 - from);
+		}
+		printf(" ");
 		if (n1 > 1) h_puthex(stdout, o + 1, n1 - 1); else printf("-");
 		printf("\n"); fflush(stdout);
 		free(o); free(e); free(src); free(line);
